@@ -47,6 +47,13 @@ CHECKS = {
         "Lifecycle scripts (add/overwrite/remove/disable/enable/reload/clear/location disable) interleaved with events, with and without a parent, both states; dispatch compared with the specification "
         "'stored, unexpired, non-scheduled, not disabled, when matches'.",
    note=NOTE_LOC, technique="Lean 4 proof over a hand-written model + guard table regenerated from the Go source + differential correspondence check", ref="5 (C10)"),
+ "C12": dict(
+   text="Lean 4 theorems (Props/C12.lean, 11): sections of one reader/writer lock are atomic for all programs keeping the discipline, all thread counts and schedules; the lock-discipline table regenerated from core/state_*.go and core/events.go "
+        "keeps the discipline except the enumerated known sites (kernel-decided); the fragment avoiding them is linearizable on memory; memory = storage for single-writer ids; a witness schedule per exception class. "
+        "The real code runs under the race detector with forced and random schedules, with exhaustive linearizability search of small histories against the Lean location model.",
+   note="Partial: FindCachedRules, expiry and two-writer memory/storage agreement are refuted (known findings); composite requests (ProcessEvent, RemRule, EnableRule) are not proved atomic and their non-linearizable histories are accepted "
+        "as a known class; races, crashes and deadlock are only observed. Trusted: the syntactic extractor, the Go race detector and runtime, the flattening of control flow into access lists.",
+   technique="Lean 4 proof (refinement to an atomic-section machine) + lock-discipline table regenerated from the Go source + race-detector stress + linearizability checking", ref="5 (C12)"),
  "C14": dict(
    text="Lean 4 theorems (Props/C14.lean, 11, audited each run) about an interleaving model of core.RunJavascript's watchdog protocol (caller goroutine, watchdog goroutine, timer, Interrupt cap 1, watchdogCleanup as coded / as repaired), "
         "for all schedules by induction with invariants decided over the finite control state: fast path clean and terminating, errors never success, timeout-selection table, the repaired protocol's termination and never-blocked theorems "
